@@ -77,6 +77,9 @@ var expected = map[string][]uint32{
 	"undecodable":  {3},
 	"timeout":      {3},
 	"oversize":     {3, 8},
+	// an enveloped single-request call (unary, server stream) without any
+	// envelope: there is no message, so user code must not be handed one
+	"nomessage": {2, 3, 12, 13},
 }
 
 func check(tt *testing.T, c Case) (pbt.Info, error) {
@@ -185,6 +188,9 @@ func check(tt *testing.T, c Case) (pbt.Info, error) {
 		if !okc {
 			return info, fmt.Errorf("%s: fault %s answered with code %d (%q), documented codes %v", where, c.Fault, dec.Status.Code, dec.Status.Message, want)
 		}
+		if c.Fault == "nomessage" && len(calls) != 0 {
+			return info, fmt.Errorf("%s: the request carried no message at all, yet user code ran (with %v)", where, calls[0].Received)
+		}
 		if (c.Fault == "unknowncomp" || c.Fault == "timeout") && len(calls) != 0 {
 			return info, fmt.Errorf("%s: user code ran although the request was rejected up front", where)
 		}
@@ -232,7 +238,7 @@ func gen(t *rapid.T) Case {
 	if multi {
 		n = rapid.IntRange(1, 3).Draw(t, "n")
 	}
-	faults := []string{"none", "flags", "truncate", "lyinglen", "unknowncomp", "compnoheader", "corruptcomp", "undecodable", "timeout", "oversize", "random", "ctvariant"}
+	faults := []string{"none", "nomessage", "flags", "truncate", "lyinglen", "unknowncomp", "compnoheader", "corruptcomp", "undecodable", "timeout", "oversize", "random", "ctvariant"}
 	c.Fault = rapid.SampledFrom(faults).Draw(t, "fault")
 	zeroOK := c.Fault == "none" || c.Fault == "flags" || c.Fault == "lyinglen" || c.Fault == "timeout" || c.Fault == "ctvariant"
 	encoding := rapid.SampledFrom([]string{"", "", "gzip", "deflate"}).Draw(t, "encoding")
@@ -268,6 +274,12 @@ func gen(t *rapid.T) Case {
 	switch c.Fault {
 	case "none":
 		c.Intact = n
+	case "nomessage":
+		if unframed || multi {
+			c.Fault, c.Intact = "none", n
+			break
+		}
+		c.Body, c.Intact = nil, 0
 	case "flags":
 		if unframed {
 			c.Fault, c.Intact = "none", n
